@@ -411,8 +411,17 @@ where
                     }
                     let mut cb_log: Vec<bool> = Vec::new();
                     let c = vsched::call("poll_signal", 0, 0);
+                    // once per case (when polls >= 3) the runtime's readiness source reports an
+                    // error instead of an answer: the poll must pass it on, not park the task
+                    let fail_now = case.polls >= 3 && polls == case.polls as u32;
+                    let mut cb_failed = false;
                     let r = it.poll_signal(&mut |read: &mut UnixStream| {
                         vsched::body_point(1);
+                        if fail_now && !cb_failed {
+                            cb_failed = true;
+                            vsched::mark("cb", 9, 0);
+                            return Err(std::io::Error::new(std::io::ErrorKind::Other, "readiness source failed"));
+                        }
                         let mut b = [0u8; 1];
                         let n = unsafe { libc::recv(read.as_raw_fd(), b.as_mut_ptr() as *mut _, 1, libc::MSG_DONTWAIT) };
                         if n == 1 {
@@ -435,6 +444,11 @@ where
                         PollResult::Signal(o) => {
                             vsched::ret(c, 1);
                             yielded(&o, 0);
+                        }
+                        PollResult::Pending if cb_failed => {
+                            vsched::ret(c, 3);
+                            vsched::violate("C11/pending-without-callback", "poll_signal returned Pending although its readiness callback had just failed with an error - no wake-up is armed".into());
+                            break;
                         }
                         PollResult::Pending => {
                             let armed = cb_log.last() == Some(&false);
@@ -472,9 +486,14 @@ where
                             }
                             break;
                         }
+                        PollResult::Err(_) if cb_failed => {
+                            // passed on; the instance stays usable and the task polls again
+                            vsched::ret(c, 5);
+                            vsched::mark("cb-error-passed-on", 0, 0);
+                        }
                         PollResult::Err(_) => {
                             vsched::ret(c, 5);
-                            vsched::violate("C11/poll-error", "poll_signal returned an error".into());
+                            vsched::violate("C11/poll-error", "poll_signal returned an error although its readiness callback had not".into());
                             break;
                         }
                     }
